@@ -157,3 +157,16 @@ Fixpoint mtrace (s:mst) (ops:list mop) : list (mout * list nat * list nat * list
   match ops with [] => [] | o :: r =>
     let s' := fst (mstep s o) in
     (snd (mstep s o), map fst (ordered (tree s')), map fst (ins s'), required true (tree s')) :: mtrace s' r end.
+
+(* feeding a word through the machine = AbsSeqC02.addw on the tree; every add succeeds *)
+Lemma mrun_adds w : forall s s', addw w (next s) (tree s) = Some s' ->
+  tree (fold_left (fun s o => fst (mstep s o)) (map MAdd w) s) = s' /\
+  map snd (ins (fold_left (fun s o => fst (mstep s o)) (map MAdd w) s)) = map snd (ins s) ++ w /\
+  Forall (fun o => o = MOk) (mouts s (map MAdd w)).
+Proof.
+  induction w as [|a w IH]; intros s s' E; simpl in *.
+  - injection E as <-. rewrite app_nil_r. auto.
+  - destruct (add (next s) a (tree s)) as [t1|] eqn:E1; [|discriminate]. simpl.
+    destruct (IH (mkM t1 (ins s ++ [(next s, a)]) (S (next s))) s' E) as (A & B & D). split; [|split]; auto.
+    + rewrite B. simpl. rewrite map_app. simpl. rewrite <- app_assoc. auto.
+Qed.
